@@ -24,6 +24,9 @@ Space (every member is visited, nothing sampled):
              token set first, larger first, equal); three pairs sharing the template instances themselves
              (refused loudly by the library: counted, nothing to judge).  Every parser of a sequence is
              judged on all its values: it must behave as if built from fresh objects.
+             A "repeated optional symbol" family: DECL -> WORD X ':' WORD X Y ';' with the same optional list /
+             optional map / bracket-less list symbol X twice in one production, every occurrence present or
+             absent, in both declaration orders.
   data     : every value of <= S nodes (atoms a/b, omitted items, lists, rows, maps with repeated keys,
              sequences, absent optional containers), nesting depth <= D, width <= W
   text     : the data rendered with a mixed gap layout (blanks, line breaks, end-of-line and multi-line
@@ -87,6 +90,10 @@ REQUIRED_FEATURES = [
     "mopt:brackets", "mopt:no-brackets", "mopt:afd-true", "mopt:afd-false", "mopt:optional",
     "mopt:key-nonterminal", "mopt:key-symbol-is-value-symbol", "lopt:item-symbol-is-a-sequence",
     "row", "list-in-row", "map-in-row", "seq-in-row", "fd:after-last-row", "order:top-down", "order:bottom-up",
+    "family:repeated-optional-symbol", "repeated-optional:list-symbol", "repeated-optional:map-symbol",
+    "repeated-optional:bare-symbol", "repeated-optional:first-present-second-absent",
+    "repeated-optional:first-absent-second-present", "repeated-optional:first-absent-second-absent",
+    "repeated-optional:first-present-second-present", "repeated-optional:following-container-absent",
     "family:any-token-except", "anyexcept:single-parser", "anyexcept:token-in-sequence",
     "anyexcept:token-as-list-item", "anyexcept:token-unknown-to-the-smaller-tokenizer",
     "shared-template-object:two-parsers", "shared:sequence-helper", "shared:list-item-helper",
@@ -204,7 +211,8 @@ def shards(tier):
                 # statements '%' SEQ ';' | '%' WORD SEQ '.': a sequence entered again after a roll-back
                 [("stmt", dflt[0], dflt[1], sv, order) for sv in SEQ_VARIANTS for order in ORDERS] +
                 [("stmt", lk, mk, "direct", "top-down") for lk, mk in small[-N_CROSSINGS:]] +
-                [("anyx", list(tn), sh) for tn, sh in anyx_sequences()])
+                [("anyx", list(tn), sh) for tn, sh in anyx_sequences()] +
+                [("decl", v, o) for v in DECL_VARIANTS for o in ORDERS])
     # thorough: the full product with the sequence over the template symbols; the sequence over VALUE and
     # the bottom-up declaration order with the core (= quick) grammar set; values of big_size nodes on
     # the core set
@@ -218,6 +226,7 @@ def shards(tier):
            if (sv, order) != ("direct", "top-down")]
     sh += [("stmtbig", lk, mk, "direct", "top-down") for lk, mk in [dflt] + big[-N_CROSSINGS:]]
     sh += [("anyx", list(tn), sh_mode) for tn, sh_mode in anyx_sequences()]
+    sh += [("decl", v, o) for v in DECL_VARIANTS for o in ORDERS]
     return sh
 
 
@@ -529,6 +538,105 @@ def run_anyx_shard(shard, tier, acc):
 
 
 
+# ------------------------------------------------------------------------------- repeated optional symbol
+# DECL -> WORD X ':' WORD X Y ';'  with X used TWICE in one production, every occurrence present / absent:
+#   variant "list":  X = ListProds('[', 'WORD', ',', ']', optional=True), Y = optional MapProds
+#   variant "map":   X = MapProds('{', 'WORD', ':', 'WORD', ',', '}', optional=True), Y = optional ListProds
+#   variant "bare":  X = ListProds(None, 'NUMBER', ',', None) (bracket-less, i.e. nullable), Y = optional MapProds
+# The later occurrence, when absent, is followed by a token that cannot follow the first one.
+DECL_VARIANTS = ("list", "map", "bare")
+DECL_LISTS = (None, [], ["a"], ["a", "b"])
+DECL_MAPS = (None, {}, {"a": "b"}, {"a": "b", "b": "a"})
+DECL_BARE = ([], ["1"], ["1", "2"])
+
+
+def decl_parser(variant, order):
+    lst = lambda: impl.ListProds("[", "WORD", ",", "]", optional=True)
+    mp = lambda: impl.MapProds("{", "WORD", ":", "WORD", ",", "}", optional=True)
+    if variant == "list":
+        x, y = lst(), mp()
+    elif variant == "map":
+        x, y = mp(), lst()
+    else:
+        x, y = impl.ListProds(None, "NUMBER", ",", None), mp()
+    prods = {"E": [("DECL",)], "DECL": [("WORD", "X", ":", "WORD", "X", "Y", ";")], "X": x, "Y": y}
+    if order == "bottom-up":
+        prods = dict(reversed(list(prods.items())))
+    return impl.LLParser(TOKENIZER, synonyms=dict(SYNONYMS), span_matchers=dict(SPAN), productions=prods)
+
+
+def _decl_tokens(v):
+    if v is None:
+        return []
+    if isinstance(v, dict):
+        out = ["{"]
+        for i, (k, val) in enumerate(v.items()):
+            out += ([","] if i else []) + [k, ":", val]
+        return out + ["}"]
+    return v
+
+
+def decl_values(variant):
+    xs = DECL_BARE if variant == "bare" else (DECL_MAPS if variant == "map" else DECL_LISTS)
+    ys = DECL_LISTS if variant == "map" else DECL_MAPS
+    return [[a, b, c] for a in xs for b in xs for c in ys]
+
+
+def decl_judge(parser, variant, data, layout_name, acc):
+    """-> None or (sig, msg, obs, exp)"""
+    def toks(v):
+        if variant == "bare" and isinstance(v, list):
+            return [t for i, x in enumerate(v) for t in ([","] if i else []) + [x]]
+        if isinstance(v, list):
+            return ["["] + [t for i, x in enumerate(v) for t in ([","] if i else []) + [x]] + ["]"]
+        return _decl_tokens(v)
+    x1, x2, y = data
+    text = T.layout(["a"] + toks(x1) + [":", "b"] + toks(x2) + toks(y) + [";"], layout_name)
+    acc.trans()
+    try:
+        root = parser.parse(text)
+    except impl.Error as e:
+        return ("valid-text-rejected", f"text denoting the data was rejected with {type(e).__name__}", text, repr(data))
+    except Exception as e:  # noqa
+        return ("exception:" + type(e).__name__, f"parse raised {type(e).__name__}: {str(e)[:160]}", text, repr(data))
+    node = root
+    while isinstance(node.value, list) and len(node.value) == 1 and T._is_telem(node.value[0]):
+        node = node.value[0]
+    kids = node.value if isinstance(node.value, list) else []
+    if len(kids) != 7:
+        return ("unexpected-node", "the declaration node does not have its seven children", repr(root)[:200], repr(data))
+    try:
+        got = [T.normalise(kids[i]) for i in (1, 4, 5)]
+    except T.Shape as sh:
+        return (_shape_sig(sh), "the cleaned tree still contains " + sh.kind.replace("-", " "), sh.detail, repr(data))
+    if got != data:
+        for g, d in zip(got, data):
+            if g != d:
+                lab = "none-became-%s" % T._kind(g) if d is None else T.diff(d, g)
+                return (lab, "a container of the declaration differs from the data the text denotes", repr(got), repr(data))
+    return None
+
+
+def run_decl_shard(shard, tier, acc):
+    _, variant, order = shard
+    parser = decl_parser(variant, order)
+    for data in decl_values(variant):
+        absent = lambda v: v is None or (variant == "bare" and v == [])
+        feats = ["family:repeated-optional-symbol", "repeated-optional:" + variant + "-symbol", "order:" + order,
+                 "repeated-optional:first-%s-second-%s" % ("absent" if absent(data[0]) else "present",
+                                                           "absent" if absent(data[1]) else "present"),
+                 "repeated-optional:following-container-" + ("absent" if data[2] is None else "present")]
+        for lay in ("mixed", "tight", "exotic"):
+            v = decl_judge(parser, variant, data, lay, acc)
+            acc.case(nontrivial=True, features=feats + ["layout:" + lay],
+                     outcome="ok:declaration" if v is None else v[0])
+            if v is not None:
+                sig, msg, obs, exp = v
+                acc.violation("C05:" + sig, {"family": "decl", "variant": variant, "order": order, "data": data,
+                                             "layout": lay}, msg, obs, exp)
+    acc.sample({"family": "decl", "variant": variant, "order": order, "data": decl_values(variant)[7]})
+
+
 # ------------------------------------------------------------------------------- one case
 def judge(parser, lopt, mopt, data, layout_name, fd_mode, acc):
     """-> (outcome, features, violation or None); violation = (sig, msg, obs, exp)."""
@@ -661,6 +769,9 @@ def run_shard(shard, tier, seed, acc):
     if shard[0] == "anyx":
         run_anyx_shard(shard, tier, acc)
         return
+    if shard[0] == "decl":
+        run_decl_shard(shard, tier, acc)
+        return
     kind, lk, mk, sv, order = shard[:5]
     lopt, mopt = _lopt(lk), _mopt(mk)
     stmts = kind in ("stmt", "stmtbig")
@@ -698,6 +809,12 @@ def run_shard(shard, tier, seed, acc):
 
 
 def replay(case, acc):
+    if case.get("family") == "decl":
+        acc.case()
+        v = decl_judge(decl_parser(case["variant"], case["order"]), case["variant"], case["data"], case["layout"], acc)
+        if v is not None:
+            acc.violation("C05:" + v[0], case, v[1], v[2], v[3])
+        return
     if case.get("family") == "anyx":
         acc.case()
         parsers = anyx_construct(case["tokenizers"], case["share"])
